@@ -5,3 +5,4 @@ INFO = {'not_decided': ['programs that read `locals` (treated, as the code does,
         'stated_lemmas': ['each binding is enumerated exactly once by SourceScope.all_names (regions registered once by add_flow, bindings '
                           'inserted once by add_name)'], 'trusted': []}
 import contracts.linter_bounded  # noqa
+import props._all  # noqa
